@@ -281,6 +281,12 @@ enum Receiving {
     Requests(Vec<Request>),
 }
 
+/// Start of a message that arrived while the previous, cancelled message was being streamed.
+enum Restarted {
+    Data { buf: Bytes, last: bool },
+    Requests { requests: Vec<Request>, last: bool },
+}
+
 /// Receives byte data over a channel.
 pub struct Receiver {
     local_port: u32,
@@ -290,6 +296,7 @@ pub struct Receiver {
     tx: mpsc::Sender<PortEvt>,
     rx: mpsc::UnboundedReceiver<PortReceiveMsg>,
     receiving: Receiving,
+    restarted: Option<Restarted>,
     credits: ChannelCreditReturner,
     closed: bool,
     finished: bool,
@@ -333,6 +340,7 @@ impl Receiver {
             tx,
             rx,
             receiving: Receiving::Nothing,
+            restarted: None,
             credits,
             closed: false,
             finished: false,
@@ -411,6 +419,16 @@ impl Receiver {
         loop {
             self.credits.return_flush().await;
 
+            // Message that started while the previous one was being streamed.
+            match self.restarted.take() {
+                Some(Restarted::Data { buf, last }) => {
+                    self.receiving = Receiving::Chunks { chunks: VecDeque::new(), completed: last };
+                    return Ok(Some(buf));
+                }
+                // Port data to ignore.
+                Some(Restarted::Requests { .. }) | None => (),
+            }
+
             match &mut self.receiving {
                 // Chunks from receive operation started by recv_any available.
                 Receiving::Chunks { chunks, .. } if !chunks.is_empty() => {
@@ -434,8 +452,8 @@ impl Receiver {
                             // First segment without last segment indicates that last transmission
                             // was cancelled.
                             (Receiving::Chunks { .. }, true) => {
-                                self.receiving =
-                                    Receiving::Chunks { chunks: vec![data.buf].into(), completed: data.last };
+                                self.receiving = Receiving::Nothing;
+                                self.restarted = Some(Restarted::Data { buf: data.buf, last: data.last });
                                 return Err(RecvChunkError::Cancelled);
                             }
                             // Either continuation or start of transmission.
@@ -454,6 +472,10 @@ impl Receiver {
                         self.credits.start_return(req.credit, self.remote_port, &self.tx);
                         if let Receiving::Chunks { .. } = &self.receiving {
                             self.receiving = Receiving::Nothing;
+                            if req.first {
+                                self.restarted =
+                                    Some(Restarted::Requests { requests: req.requests, last: req.last });
+                            }
                             return Err(RecvChunkError::Cancelled);
                         }
                     }
@@ -483,6 +505,33 @@ impl Receiver {
 
         loop {
             self.credits.return_flush().await;
+
+            // Message that started while the previous one was being streamed.
+            match self.restarted.take() {
+                Some(Restarted::Data { buf, last }) => {
+                    let mut data_buf = DataBuf::new();
+                    match data_buf.try_push(buf, self.max_data_size) {
+                        Ok(()) if last => return Ok(Some(Received::Data(data_buf))),
+                        Ok(()) => self.receiving = Receiving::Data(data_buf),
+                        Err(buf) => {
+                            data_buf.bufs.push_back(buf);
+                            self.receiving = Receiving::Chunks { chunks: data_buf.bufs, completed: last };
+                            return Ok(Some(Received::Chunks));
+                        }
+                    }
+                }
+                Some(Restarted::Requests { requests, last }) => {
+                    if requests.len() > self.max_ports {
+                        self.receiving = Receiving::Nothing;
+                        return Err(RecvError::ExceedsMaxPortCount(self.max_ports));
+                    }
+                    if last {
+                        return Ok(Some(Received::Requests(requests)));
+                    }
+                    self.receiving = Receiving::Requests(requests);
+                }
+                None => (),
+            }
 
             match self.rx.recv().await {
                 // Data message.
